@@ -36,7 +36,7 @@ Proof.
   unfold run_h, run in *. cbn [fold_left]. rewrite step_h'_coherent. apply IH.
 Qed.
 
-(* a failed operation whose handle is put back (fix 006048a) leaves the summary, the handle and every referenced file's
+(* a failed operation whose handle is put back (fix 8453df6) leaves the summary, the handle and every referenced file's
    row-group list as they were; only unreferenced part files appear *)
 Theorem fail_restored_coherent s done :
   let sh' := fail_write false (s, open_h s) done in
